@@ -8,7 +8,9 @@ package main
 //   * for every handler the set of (E_* code, fatal?) it can construct
 //     (protocol.NewFatalClientErr / protocol.NewClientErr call sites, following the
 //     calls to p.CheckAuth and readMPUB one level), and the same for enforceTLSPolicy;
-//   * the protocol magics accepted by tcpServer.Handle and the code sent otherwise.
+//   * the protocol magics accepted by tcpServer.Handle and the code sent otherwise;
+//   * how IOLoop reads a command line (the method called on client.Reader, its delimiter)
+//     and the size every bufio reader of a client connection is created with.
 // Only syntax is read (go/ast).
 
 import (
@@ -327,6 +329,92 @@ func genProtoTable(repo string) (string, error) {
 	}
 	sb.WriteString("].\n")
 	fmt.Fprintf(&sb, "Definition tcp_bad_magic : string := %q.\n", bad)
+
+	// IOLoop: every call client.Reader.M(args) - the read of a command line
+	ioloop := p.method("protocolV2", "IOLoop")
+	if ioloop == nil {
+		return "", fmt.Errorf("protocolV2.IOLoop not found")
+	}
+	var reads []string
+	ast.Inspect(ioloop.Body, func(n ast.Node) bool {
+		c, ok := n.(*ast.CallExpr)
+		if !ok {
+			return true
+		}
+		sel, ok := c.Fun.(*ast.SelectorExpr)
+		if !ok {
+			return true
+		}
+		recv, ok := sel.X.(*ast.SelectorExpr)
+		if !ok || recv.Sel.Name != "Reader" {
+			return true
+		}
+		delim := "?"
+		if len(c.Args) == 1 {
+			if bl, ok := c.Args[0].(*ast.BasicLit); ok && bl.Kind == token.CHAR {
+				if r, _, _, err := strconv.UnquoteChar(strings.Trim(bl.Value, "'"), '\''); err == nil {
+					delim = strconv.Itoa(int(r))
+				}
+			}
+		}
+		if delim == "?" {
+			reads = append(reads, fmt.Sprintf("(%q, 999%%N)", sel.Sel.Name))
+		} else {
+			reads = append(reads, fmt.Sprintf("(%q, %s%%N)", sel.Sel.Name, delim))
+		}
+		return true
+	})
+	sb.WriteString("\n(* protocolV2.IOLoop: the calls on client.Reader (method, delimiter byte): how a command line is read *)\n")
+	fmt.Fprintf(&sb, "Definition ioloop_line_reads : list (string * N) := [%s].\n", strings.Join(reads, "; "))
+
+	// every `X.Reader = bufio.NewReaderSize(_, SIZE)` / `Reader: bufio.NewReaderSize(_, SIZE)` of the package
+	var sizes []string
+	readerSize := func(e ast.Expr) (string, bool) {
+		c, ok := e.(*ast.CallExpr)
+		if !ok {
+			return "", false
+		}
+		sel, ok := c.Fun.(*ast.SelectorExpr)
+		if !ok {
+			return "", false
+		}
+		if id, ok := sel.X.(*ast.Ident); !ok || id.Name != "bufio" {
+			return "", false
+		}
+		switch sel.Sel.Name {
+		case "NewReaderSize":
+			if len(c.Args) == 2 {
+				return protoOperand(c.Args[1]), true
+			}
+			return "?", true
+		case "NewReader":
+			return "bufio-default", true
+		}
+		return "", false
+	}
+	for _, fn := range p.fileNames() {
+		ast.Inspect(p.files[fn], func(n ast.Node) bool {
+			switch x := n.(type) {
+			case *ast.KeyValueExpr:
+				if id, ok := x.Key.(*ast.Ident); ok && id.Name == "Reader" {
+					if s, ok := readerSize(x.Value); ok {
+						sizes = append(sizes, strconv.Quote(s))
+					}
+				}
+			case *ast.AssignStmt:
+				for i, l := range x.Lhs {
+					if sel, ok := l.(*ast.SelectorExpr); ok && sel.Sel.Name == "Reader" && i < len(x.Rhs) {
+						if s, ok := readerSize(x.Rhs[i]); ok {
+							sizes = append(sizes, strconv.Quote(s))
+						}
+					}
+				}
+			}
+			return true
+		})
+	}
+	sb.WriteString("(* the size of every bufio reader installed as a client's Reader (plain, TLS, deflate, snappy) *)\n")
+	fmt.Fprintf(&sb, "Definition reader_sizes : list string := [%s].\n", strings.Join(sizes, "; "))
 	return sb.String(), nil
 }
 
